@@ -349,6 +349,12 @@ class HasFileIgnoreInContent:
     def value(file_content, rule_id):
         return header_ignores(file_content, rule_id)
 
+    def ensures_first_sixth_and_tenth_line_count(file_content, rule_id, result):
+        # property text: "in the first ten lines" -- stated per position (files of exactly k+1 lines whose last line
+        # carries a matching directive), so that a shorter scan window has a finite counterexample
+        return all(implies(len(file_content.splitlines()) == k + 1
+                           and header_line_ignores(file_content.splitlines()[k], rule_id), result) for k in (0, 5, 9))
+
 
 @contract(IG + "_is_ignored_in_content", props=["C04"], types=dict(file_content=Str, violation=ViolationT, lines=SeqOf(Str)),
           returns=Bool)
